@@ -54,7 +54,8 @@ impl Check for AcceptCheck {
 fn accept_oracle(c: &AcceptCase, cl: &mut u64) -> Result<u32, Failure> {
     let (fc, fn_, t) = (c.f_current.f(), c.f_candidate.f(), c.t.f());
     let problem = RealP::new(1, -1.0, 1.0, RealKind::Tag);
-    let delta = fn_ - fc;
+    // equal values (also inf and inf, whose difference is NaN) are a tie
+    let delta = if fn_ == fc { 0.0 } else { fn_ - fc };
     let p = if delta <= 0.0 { 1.0 } else { (-delta / t).exp() };
     if delta < 0.0 {
         *cl |= 2;
@@ -229,6 +230,13 @@ fn grid(n: u32, base: u64) -> Vec<AcceptCase> {
             }
         }
     }
+    // infeasible solutions carry the objective value +inf: both infinite is a tie (accepted), an infeasible candidate
+    // is never accepted over a feasible current solution, a feasible candidate always replaces an infeasible one
+    for (j, t) in ts.iter().enumerate() {
+        for (fc, fnew) in [(f64::INFINITY, f64::INFINITY), (f64::INFINITY, 5.0), (5.0, f64::INFINITY)] {
+            out.push(AcceptCase { f_current: Fb::of(fc), f_candidate: Fb::of(fnew), t: Fb::of(*t), n: n.min(500), seed: base.wrapping_add(977 + j as u64), below: (j % 3) as u8 });
+        }
+    }
     // cells in the informative region 0.01 < p < 0.99
     for ratio in [0.02, 0.1, 0.3, 0.7, 1.0, 1.5, 2.5, 4.0] {
         for t in [0.01, 1.0, 250.0] {
@@ -251,7 +259,7 @@ pub fn run_all(ctx: &mut Ctx, replay: Option<&Path>) {
     ctx.regressions(&m);
     let n = ctx.tier.pick(2000, 20_000);
     let base = ctx.derive_seed("sa");
-    ctx.exhaustive(&a, &format!("9 margins x 7 temperatures (+ shifted objective levels) + 24 cells with exp(-delta/T) in (0.01, 0.99), N = {n} seeds per cell"), grid(n, base).into_iter());
+    ctx.exhaustive(&a, &format!("9 margins x 7 temperatures (+ shifted objective levels) + 21 cells with +inf objective values (tie / infeasible candidate / infeasible current) + 24 cells with exp(-delta/T) in (0.01, 0.99), N = {n} seeds per cell"), grid(n, base).into_iter());
     ctx.random(
         &a,
         (-50.0f64..50.0, prop_oneof![Just(0.0), -5.0f64..0.0, 0.0f64..8.0], prop_oneof![Just(1e-6), Just(0.5), Just(1.0), Just(3.0), 0.01f64..20.0], any::<u64>(), 0u8..3).prop_map(move |(fc, d, t, seed, below)| AcceptCase { f_current: Fb::of(fc), f_candidate: Fb::of(fc + d), t: Fb::of(t), n: 600, seed, below }),
